@@ -19,6 +19,7 @@ fn dump_fields(h: &Headers) -> String {
 }
 
 pub fn run(case: &str) -> String {
+    crate::util::note_current(case);
     let case = case.to_string();
     guarded(move || {
         let mut h = Headers::new();
